@@ -172,29 +172,26 @@ def tree_sig(top):
     return sorted(out)
 
 
-class World(object):
-    """One concretised world: sandbox, configuration, the object under test."""
+class Sources(object):
+    """Per driver process: the files the calls copy from (<base>/src) and the directory PATH points
+    to (<base>/bin).  The code under test has no business writing there; every projection compares
+    the source tree with its signature, and a world that finds it damaged rebuilds it."""
 
-    def __init__(self, base, case, rng, stats, realtools):
-        self.case, self.rng, self.stats, self.realtools = case, rng, stats, realtools
-        self.comp, self.keep = case["cfg"]["comp"], case["cfg"]["keep"]
-        self.root = tempfile.mkdtemp(prefix="w", dir=base)
-        R = self.root
-        self.vartmp = os.path.join(R, "var", "tmp")
-        self.cache = os.path.join(R, "var", "cache")
-        self.keepdir = os.path.join(self.cache, "insights-client")
-        self.cwd = os.path.join(R, "cwd")
-        self.bin = os.path.join(R, "bin")
-        self.src = os.path.join(R, "src")
-        self.victim = os.path.join(R, "victim")
-        for d in (self.vartmp, self.cwd, self.bin, self.src):
+    def __init__(self, base, rng, realtools):
+        self.base, self.rng, self.realtools = base, rng, realtools
+        self.src = os.path.join(base, "src")
+        self.bin = os.path.join(base, "bin")
+        self.build()
+
+    def build(self):
+        rng = self.rng
+        for d in (self.src, self.bin):
+            if os.path.lexists(d):
+                shutil.rmtree(d)
             os.makedirs(d)
-        init = case["init"]
-        planted = set(init["planted"])
-        # -- the files the calls copy from, and the texts they add ------------------------------
         tag = "%08x" % rng.getrandbits(32)
         self.srcpath = {"f1": os.path.join(self.src, "etc", "f1-%s.conf" % tag),
-                        "f2": os.path.join(self.src, "etc", "sub dir" if rng.random() < 0.3 else "sub", "f2.conf"),
+                        "f2": os.path.join(self.src, "etc", "sub dir", "f2.conf"),      # a blank in the path
                         "g1": os.path.join(self.src, "globs", "g.1"), "g2": os.path.join(self.src, "globs", "g.2"),
                         "h1": os.path.join(self.src, "globs", "h.1"),
                         "da": os.path.join(self.src, "d", "a.txt"), "dc": os.path.join(self.src, "d", "sub", "c.txt")}
@@ -210,8 +207,41 @@ class World(object):
         self.meta = {"c1": '{"remote_branch": -1, "remote_leaf": -1, "t": "%s"}' % tag,
                      "c2": '{"remote_branch": "b-%s", "remote_leaf": 7}' % tag}
         # member path inside the collection directory -> (token, bytes)
-        self.members = dict((self.srcpath[k].lstrip("/"), (k, self.content[k])) for k in ("f1", "f2", "g1", "g2", "da", "dc"))
+        self.members = dict((self.srcpath[k].lstrip("/"), (k, self.content[k]))
+                            for k in ("f1", "f2", "g1", "g2", "da", "dc"))
         self.src_sig = tree_sig(self.src)
+        os.symlink(self.realtools["tar"], os.path.join(self.bin, "tar"))
+
+    def intact(self):
+        return tree_sig(self.src) == self.src_sig
+
+
+class World(object):
+    """One concretised world: sandbox, configuration, the object under test."""
+
+    def __init__(self, base, case, rng, stats, sources):
+        self.case, self.rng, self.stats, self.realtools = case, rng, stats, sources.realtools
+        if not sources.intact() or sorted(os.listdir(base)) != ["bin", "src"]:
+            for n in os.listdir(base):          # an earlier history damaged the shared areas: start afresh
+                if n not in ("bin", "src"):
+                    shutil.rmtree(os.path.join(base, n), True)
+            sources.build()
+        self.S = sources
+        self.base = base
+        self.comp, self.keep = case["cfg"]["comp"], case["cfg"]["keep"]
+        self.root = tempfile.mkdtemp(prefix="w", dir=base)
+        R = self.root
+        self.vartmp = os.path.join(R, "var", "tmp")
+        self.cache = os.path.join(R, "var", "cache")
+        self.keepdir = os.path.join(self.cache, "insights-client")
+        self.cwd = os.path.join(R, "cwd")
+        self.bin, self.src = sources.bin, sources.src
+        self.victim = os.path.join(R, "victim")
+        for d in (self.vartmp, self.cwd):
+            os.makedirs(d)
+        init = case["init"]
+        planted = set(init["planted"])
+        self.args, self.meta, self.members = sources.args, sources.meta, sources.members
         # -- what other runs and other programs left behind ------------------------------------
         self.prevpath = {}
         rs = lambda: "".join(rng.choice("abcdefghijklmnopqrstuvwxyz0123456789_") for _ in range(8))
@@ -263,7 +293,6 @@ class World(object):
                 set_age(self.victim, age)
         self.prev_sig = dict((k, tree_sig(p)) for k, p in self.prevpath.items() if k not in ("old", "link"))
         # -- tools ---------------------------------------------------------------------------------
-        os.symlink(realtools["tar"], os.path.join(self.bin, "tar"))
         self.set_tools(init["tool"])
         # -- the object ------------------------------------------------------------------------------
         self.obj = None
@@ -280,7 +309,7 @@ class World(object):
         A.determine_hostname = lambda *a, **k: self.host
         os.environ["PATH"] = self.bin
         os.chdir(self.cwd)
-        Guard.root = R
+        Guard.root = base
 
     # -- environment ---------------------------------------------------------------------------
     def set_tools(self, on):
@@ -382,7 +411,10 @@ class World(object):
         stray = []
         R = self.root
         for n in os.listdir(R):
-            if n not in ("var", "src", "cwd", "bin") and not (n == "victim" and "victim" in self.prevpath):
+            if n not in ("var", "cwd") and not (n == "victim" and "victim" in self.prevpath):
+                stray.append("sandbox:other")
+        for n in os.listdir(self.base):
+            if n not in ("src", "bin", os.path.basename(R)):
                 stray.append("sandbox:other")
         if os.listdir(self.cwd):
             stray.append("working-directory")
@@ -447,7 +479,7 @@ class World(object):
                 prev[k] = tree_sig(p) == self.prev_sig[k]         # all of it, as it was
         return {"obj": self.obj is not None, "tmp": tmp, "adir": adir, "tar": tar, "kept": kept, "keepdir": keepdir,
                 "prev": prev, "tool": self.tools_on(), "stray": sorted(set(stray)), "esc": sorted(set(Guard.esc)),
-                "src": tree_sig(self.src) == self.src_sig}
+                "src": self.S.intact()}
 
     def where(self, r):
         """a returned path as a location of the model"""
@@ -467,7 +499,7 @@ class World(object):
             return "tar", "-"
         if td and p == td:
             return "tmp", "-"
-        for top, name in ((td, "tmp-other"), (self.keepdir, "keep"), (self.src, "src"), (self.root, "sandbox-other")):
+        for top, name in ((td, "tmp-other"), (self.keepdir, "keep"), (self.src, "src"), (self.base, "sandbox-other")):
             if under(top):
                 return name, "-"
         return "outside", "-"
@@ -596,6 +628,9 @@ class World(object):
         os.chdir(base)
         Guard.root = None
         shutil.rmtree(self.root, True)
+        for n in os.listdir(base):              # whatever a history dropped beside its world
+            if n not in ("src", "bin"):
+                shutil.rmtree(os.path.join(base, n), True)
 
 
 def find_tools():
@@ -619,9 +654,11 @@ def main():
     stats = {}
     traces = []
     try:
+        first = inp["cases"][0]["id"] if inp["cases"] else ""
+        sources = Sources(base, random.Random("%s/sources/%s" % (inp.get("seed", 0), first)), realtools)
         for case in inp["cases"]:
             rng = random.Random("%s/%s" % (inp.get("seed", 0), case["id"]))
-            w = World(base, case, rng, stats, realtools)
+            w = World(base, case, rng, stats, sources)
             try:
                 init = w.project()
                 want = {"obj": False, "tmp": False, "adir": {"ex": False, "mem": []},
